@@ -22,7 +22,9 @@
      treat, errdev   level registry tables that matter for gating and routing
      regd     custom level values registered so far (RegisterLevel refuses a second registration)
      vrb      the process-wide verbose switch of hedzr/is (set from outside the library)
-     hnd      log/slog handlers made so far: hnd[k] is the logger handler k sits on         *)
+     hnd      log/slog handlers made so far: hnd[k] is the logger handler k sits on
+     closed   file destinations (writer ids from FileBase on) that were closed through the writer
+              list they are in: every later Write to them fails, nothing arrives                *)
 EXTENDS Levels, TLC, SequencesExt, FiniteSetsExt
 
 CONSTANTS
@@ -50,6 +52,7 @@ CONSTANTS
     CtxVals,         \* context contents explored by LogM: each a sequence of <<context key, value>> (value 0 = absent)
     CallArgs,        \* call-site attribute lists explored by LogM
     FlagSets,        \* sequence of flag sets used as arguments of the flag calls (sets of flag names)
+    FileBase,        \* writer ids from here on are files (harness/rec.go)
     MaxHandlers,     \* bound on log/slog handlers in the exhaustive model
     MaxSaved,        \* bound on outstanding SaveFlagsAndMod / SaveLevelAndSet scopes in the exhaustive model
     MaxList,         \* bound on the length of attribute / writer / context-key lists in the exhaustive model
@@ -82,7 +85,7 @@ InitState ==
      cfg |-> <<DefaultCfg(FALSE, TRUE, InitLevel)>>,
      dbg |-> FALSE, deflvl |-> InitLevel, deflog |-> 1, attrsR |-> FALSE,
      flags |-> InitFlags, savedf |-> <<>>, savedl |-> <<>>,
-     treat |-> InitTreat, errdev |-> InitErrDev, regd |-> InitRegd, vrb |-> FALSE, hnd |-> <<>>]
+     treat |-> InitTreat, errdev |-> InitErrDev, regd |-> InitRegd, vrb |-> FALSE, hnd |-> <<>>, closed |-> {}]
 
 Live(s) == 1..s.n
 
@@ -180,6 +183,13 @@ SkipName(k) == "c/[" \o ToString(k) \o "]"
      PkgSetLevel  slog.SetLevel(a)
      SetDefault   slog.SetDefault(l)                                                         *)
 
+\* C03: destinations of a record of severity r emitted by logger l
+Dest(s, l, r) ==
+    IF r = Off THEN <<>>
+    ELSE IF r \in WLevels /\ s.cfg[l].wl[r] # <<>> THEN s.cfg[l].wl[r]
+    ELSE IF ErrClass(r, s.errdev) THEN s.cfg[l].we
+    ELSE s.cfg[l].wn
+
 Guard(s, e) ==
     CASE e.op = "Set" -> e.l \in Live(s) /\ e.k \in SetterKinds
       [] e.op = "With" -> e.l \in Live(s) /\ e.k \in SetterKinds
@@ -193,6 +203,9 @@ Guard(s, e) ==
       \* NewSlogHandler(l, HandlerOpts[e.a]) / a record of standard level e.a through handler e.l
       [] e.op = "MkHandler" -> e.l \in Live(s) /\ e.a \in DOMAIN HandlerOpts
       [] e.op = "HEmit" -> e.l \in DOMAIN s.hnd
+      \* l.GetWriterBy(e.a).Close(): closes every member of the destination list of severity e.a (modelled
+      \* for lists of the user's own writers; the built-in stdout/stderr destinations are left out)
+      [] e.op = "CloseW" -> e.l \in Live(s) /\ \A j \in DOMAIN Dest(s, e.l, e.a) : Dest(s, e.l, e.a)[j] > 0
       [] e.op = "VrbMode" -> TRUE                  \* the process-wide verbose switch set from outside the library (hedzr/is)
       \* slog.RegisterLevel(v, title, options): RegCalls[e.a]
       [] e.op = "Register" -> e.a \in DOMAIN RegCalls
@@ -259,6 +272,7 @@ Step(s, e) ==
                nf == IF o.nosource THEN s.flags \ {"caller"} ELSE s.flags \cup {"caller"}
            IN {[s EXCEPT !.cfg[e.l] = c3, !.flags = nf, !.dbg = s.dbg \/ o.level = Debug, !.hnd = Append(s.hnd, e.l)]}
       [] e.op = "HEmit" -> {s}
+      [] e.op = "CloseW" -> {[s EXCEPT !.closed = @ \cup {w \in ToSet(Dest(s, e.l, e.a)) : w >= FileBase}]}
       \* a refused registration (value in use, or title in use) changes nothing at all; an accepted
       \* one changes the entries of its own value only
       [] e.op = "Register" ->
@@ -326,12 +340,6 @@ TsZone(s, l) == IF s.cfg[l].utc = 2 \/ (s.cfg[l].utc = 0 /\ "localTime" \notin s
 TsLayouts(s, l) == IF s.cfg[l].layout # "" THEN {s.cfg[l].layout}
                    ELSE TsFlagLayouts(s.flags \cap {"date", "time", "micro"})
 
-\* C03: destinations of a record of severity r emitted by logger l
-Dest(s, l, r) ==
-    IF r = Off THEN <<>>
-    ELSE IF r \in WLevels /\ s.cfg[l].wl[r] # <<>> THEN s.cfg[l].wl[r]
-    ELSE IF ErrClass(r, s.errdev) THEN s.cfg[l].we
-    ELSE s.cfg[l].wn
 
 (* C07: attribute assembly.  An attribute is <<key, value>> with integer keys (the harness maps key
    k to a name whose byte order is the numeric order) and positive integer values; <<key, -g>> is
@@ -384,16 +392,24 @@ Emits(s, l, r) == Admit(s.cfg[l].level, r, s.dbg, s.treat)
    the failing attempts as <<phase, writer, occurrence>> (phase 1 the record, 2 the diagnostic;
    occurrence counts repeated list entries).                                                      *)
 Occ(d, j) == Cardinality({x \in 1..j : d[x] = d[j]})
-Attempts(d, phase, fails) ==
-    [j \in 1..Len(d) |-> [w |-> d[j], ph |-> phase, fail |-> (<<phase, d[j], Occ(d, j)>> \in fails),
+Attempts(d, phase, fails, closed) ==
+    [j \in 1..Len(d) |-> [w |-> d[j], ph |-> phase, fail |-> (<<phase, d[j], Occ(d, j)>> \in fails \/ d[j] \in closed),
                             whole |-> TRUE]]        \* every attempt is handed the complete record
 AnyFail(as) == \E j \in 1..Len(as) : as[j].fail
 WantsDiag(s, l, r, a1) == AnyFail(a1) /\ r # Warn /\ Emits(s, l, Warn)
 Deliver(s, l, r, fails) ==
     IF ~Emits(s, l, r) THEN <<>>
-    ELSE LET a1 == Attempts(Dest(s, l, r), 1, fails)
-             a2 == IF WantsDiag(s, l, r, a1) THEN Attempts(Dest(s, l, Warn), 2, fails) ELSE <<>>
+    ELSE LET a1 == Attempts(Dest(s, l, r), 1, fails, s.closed)
+             a2 == IF WantsDiag(s, l, r, a1) THEN Attempts(Dest(s, l, Warn), 2, fails, s.closed) ELSE <<>>
          IN a1 \o a2
+
+\* what an observer of the destinations sees of a list of attempts / of a destination list: a closed
+\* file receives nothing (the attempt is made and fails)
+Visible(s, as) == SelectSeq(as, LAMBDA x : x.w \notin s.closed)
+Open(s, d) == SelectSeq(d, LAMBDA w : w \notin s.closed)
+\* Close() reaches every member that can be closed: the recording LogWriters note it
+\* (harness/rec.go: writer ids with (w-1) % 4 in {1, 2} are LogWriters), files get closed
+Closers(d) == SelectSeq(d, LAMBDA w : w > 0 /\ w < FileBase /\ (w - 1) % 4 \in {1, 2})
 
 (* C02: whatever the arguments, an admitted call is one whole Write (payload ending in a newline)
    per selected destination, a call that is not admitted writes nothing, and a blank
@@ -459,6 +475,7 @@ SetAttrsR(b) == "SetAttrsR" \in Acts /\ b \in {0, 1} /\ Do("SetAttrsR", 0, "", b
 DbgMode(b) == "DbgMode" \in Acts /\ b \in {0, 1} /\ Do("DbgMode", 0, "", b, 0)
 MkHandler(l, a) == "MkHandler" \in Acts /\ Len(st.hnd) < MaxHandlers /\ Do("MkHandler", l, "", a, 0)
 HEmit(h, r) == "HEmit" \in Acts /\ r \in {Debug, Info, Warn, Error} /\ Do("HEmit", h, "", r, 0)
+CloseW(l, r) == "CloseW" \in Acts /\ Do("CloseW", l, "", r, 0)
 VrbMode(b) == "VrbMode" \in Acts /\ b \in {0, 1} /\ Do("VrbMode", 0, "", b, 0)
 Register(a) == "Register" \in Acts /\ a \in DOMAIN RegCalls /\ Do("Register", 0, "", a, 0)
 PkgSkip(k, a) ==
@@ -499,6 +516,7 @@ Next ==
     \/ \E b \in {0, 1} : SetAttrsR(b)
     \/ \E b \in {0, 1} : DbgMode(b)
     \/ \E b \in {0, 1} : VrbMode(b)
+    \/ \E l \in 1..MaxLoggers, r \in LogSevs : CloseW(l, r)
     \/ \E l \in 1..MaxLoggers, a \in DOMAIN HandlerOpts : MkHandler(l, a)
     \/ \E h \in 1..MaxHandlers, r \in {Debug, Info, Warn, Error} : HEmit(h, r)
     \/ \E a \in DOMAIN RegCalls : Register(a)
